@@ -95,3 +95,4 @@ class Struct:
     doc: bool = False
     twin: bool = False          # emit Debug twin
     ctab: bool = False          # emit compile-time tables (C15)
+    keep_names: bool = False    # keep the field names given by the enumerator (NAMES family)
